@@ -66,11 +66,19 @@ Lemma fold_rem_nodes : forall l s, s_nodes (fold_left wep_rem l s) = s_nodes s.
 Proof.
   induction l as [|x l IH]; intros s; simpl; [reflexivity|]. rewrite IH. unfold wep_rem. now rewrite nr_remove_nodes, update_cidr_nodes.
 Qed.
-Lemma on_wep_nodes : forall s id cs, s_nodes (on_wep s id cs) = s_nodes s.
+Lemma on_wep_forced_eq : forall s id cs,
+  on_wep_forced s id cs =
+  let old := match aget N.eqb (s_weps s) id with Some l => l | None => [] end in
+  let s1 := fold_left wep_rem old (fold_left wep_add cs s) in
+  match cs with [] => set_weps s1 (aremove N.eqb (s_weps s1) id) | _ => set_weps s1 (aset N.eqb (s_weps s1) id cs) end.
+Proof. reflexivity. Qed.
+Lemma on_wep_forced_nodes : forall s id cs, s_nodes (on_wep_forced s id cs) = s_nodes s.
 Proof.
-  intros s id cs. rewrite on_wep_eq. cbv zeta. destruct (list_eqb _ _ _); [reflexivity|].
+  intros s id cs. rewrite on_wep_forced_eq. cbv zeta.
   destruct cs; cbn [s_nodes set_weps]; now rewrite fold_rem_nodes, fold_add_nodes.
 Qed.
+Lemma on_wep_nodes : forall s id cs, s_nodes (on_wep s id cs) = s_nodes s.
+Proof. intros s id cs. unfold on_wep. destruct (wep_unchanged s id cs); [reflexivity|apply on_wep_forced_nodes]. Qed.
 
 (* ---------------------------------------------------------------- node updates *)
 
@@ -90,17 +98,16 @@ Lemma walk_owner : forall t k, anc k (plen k) = k -> ri_hosts (tget t k) = [] ->
   a_node (walk t k) = owner (tget t k).
 Proof. intros t k E H O. rewrite (walk_last t k E). now apply step_owner. Qed.
 
-Lemma node_m5 : forall s m v k, s_dirty s = [] -> nr_cov s -> wfp 32 k ->
-  fset (s_trie (on_node true s m v)) k -> ~ In k (s_dirty (on_node true s m v)) ->
-  finish (s_nodes (on_node true s m v)) (walk (s_trie s) k) = finish (s_nodes s) (walk (s_trie s) k).
+Lemma node_m5_forced : forall s m v k, s_dirty s = [] -> nr_cov s -> wfp 32 k ->
+  fset (s_trie (on_node_forced true s m v)) k -> ~ In k (s_dirty (on_node_forced true s m v)) ->
+  finish (s_nodes (on_node_forced true s m v)) (walk (s_trie s) k) = finish (s_nodes s) (walk (s_trie s) k).
 Proof.
   intros s m v k HD NR W FS I.
-  assert (EQ : tget (s_trie (on_node true s m v)) k = tget (s_trie s) k).
-  { destruct (r_chg _ _ (rel_on_node true s m v) k) as [X|X]; [exact X|contradiction]. }
+  assert (EQ : tget (s_trie (on_node_forced true s m v)) k = tget (s_trie s) k).
+  { destruct (r_chg _ _ (rel_on_node_forced true s m v) k) as [X|X]; [exact X|contradiction]. }
   unfold fset in FS. rewrite EQ in FS. destruct FS as [HH HO].
-  revert I. rewrite on_node_eq. cbv zeta.
+  revert I. rewrite on_node_forced_eq. cbv zeta.
   set (old := aget N.eqb (s_nodes s) m). set (new := option_map ninfo_of v).
-  destruct (opt_eqb ninfo_eqb old new) eqn:U; [reflexivity|].
   set (s1 := st1 true s m old new). set (s2 := st2 s1 m old). set (s3 := st3 s2 m new). set (mid := st4 s3 m).
   intros I.
   assert (SG12 : stage s1 mid).
@@ -151,6 +158,13 @@ Proof.
 Qed.
 
 (* ---------------------------------------------------------------- one update keeps the downstream route set up to date *)
+Lemma node_m5 : forall s m v k, s_dirty s = [] -> nr_cov s -> wfp 32 k ->
+  fset (s_trie (on_node true s m v)) k -> ~ In k (s_dirty (on_node true s m v)) ->
+  finish (s_nodes (on_node true s m v)) (walk (s_trie s) k) = finish (s_nodes s) (walk (s_trie s) k).
+Proof.
+  intros s m v k HD NR W. unfold on_node. destruct (node_unchanged s m v); [reflexivity|]. now apply node_m5_forced.
+Qed.
+
 Definition op_wf (o : op) : Prop := match o with OpWep _ cs => forall c, In c cs -> plen c = 32%nat | _ => True end.
 
 Theorem op_keeps_out_ok : forall s o, s_dirty s = [] -> out_ok s -> nr_cov s -> weps32 s -> op_wf o ->
@@ -161,4 +175,15 @@ Proof.
   - apply (flush_out_ok s); auto; [apply rel_on_block|]. intros k _ _ _. now rewrite on_block_nodes.
   - apply (flush_out_ok s); auto; [apply rel_on_node|]. intros k W FS I. now apply node_m5.
   - apply (flush_out_ok s); auto; [now apply rel_on_wep|]. intros k _ _ _. now rewrite on_wep_nodes.
+Qed.
+
+Definition fop_wf (x : fop) : Prop := match x with FOp _ o => op_wf o end.
+
+Theorem fop_keeps_out_ok : forall s x, s_dirty s = [] -> out_ok s -> nr_cov s -> weps32 s -> fop_wf x ->
+  out_ok (apply_fop true s x).
+Proof.
+  intros s [force o] HD OK NR W32 OW. simpl in OW. destruct force; [|now apply op_keeps_out_ok].
+  destruct o as [c v|c v|m v|id cs]; cbn [apply_fop]; try (now apply op_keeps_out_ok).
+  - apply (flush_out_ok s); auto; [apply rel_on_node_forced|]. intros k W FS I. now apply node_m5_forced.
+  - apply (flush_out_ok s); auto; [now apply rel_on_wep_forced|]. intros k _ _ _. now rewrite on_wep_forced_nodes.
 Qed.
